@@ -253,6 +253,48 @@ def c19_unencodable():
                      lambda: jsonlogic_rs.apply(rule, data, lambda o: json.dumps(o, ensure_ascii=False)), None, None)
 
 
+CONFUSABLE = [
+    ("a\r\nb", "a\nb"), ("\r\n", "\n"), ("a\n", "a"), ("\u00e9", "e\u0301"), ("\u00c5", "\u212b"), ("\u1e69", "s\u0323\u0307"),
+    ("\uac00", "\u1100\u1161"), ("a", "A"), ("\u00df", "ss"), ("k", "\u212a"), ("a ", "a"), (" a", "a"), ("a\tb", "a b"),
+    ("a\u00a0b", "a b"), ("01", "1"), ("+1", "1"), ("1.0", "1"), ("a\u0000", "a"), ("\ufeffa", "a"), ("\uff11", "1"), ("\uff41", "a"),
+    ("\ufb01", "fi"), ("a\u200db", "ab"), ("a\u00adb", "ab"), ("a\\nb", "a\nb"), ("a\\u0041", "aA"), ("%41", "A"), ("a.b", "a\\.b"),
+    ("\u2126", "\u03a9"), ("\u0958", "\u0915\u093c"), ("\U0001d15e", "\U0001d157\U0001d165"), ("\u1e9b\u0323", "\u017f\u0323\u0307"),
+]
+
+
+def raw_dumps(o):
+    return json.dumps(o, ensure_ascii=False)
+
+
+def c19_text_fidelity():
+    """strings travel through the wrapper code point for code point: nothing is normalised, folded, trimmed or
+    unescaped on the way in or out, whether the text is ASCII-escaped (default serializer) or raw"""
+    for i, (x, y) in enumerate(CONFUSABLE):
+        if i % nshards != shard:
+            continue
+        for a, b in ((x, y), (y, x)):
+            cases = (
+                (a, None),
+                ({"var": a}, {a: "under-a", b: "under-b"}),
+                ({"var": [a, "dflt"]}, {b: "under-b"}),
+                ({"===": [{"var": "x"}, b]}, {"x": a}),
+                ({"cat": [a, "|", {"var": ""}]}, b),
+                ({"in": [a, {"var": ""}]}, [b, "x"]),
+                ({"missing": [a, b]}, {b: 1}),
+                ({"var": ""}, {a: b, "k": [a, b]}),
+                ({"substr": [{"var": ""}, -1]}, a),
+            )
+            for rule, data in cases:
+                d = {"rule": ascii(rule), "data": ascii(data)}
+                for name, ser in (("escaped", json.dumps), ("raw", raw_dumps)):
+                    rt, dt = ser(rule), ser(data)
+                    run_case("fidelity:apply_serialized(%s)" % name, dict(d, f="apply_serialized", texts=name), lambda: jsonlogic_rs.apply_serialized(rt, dt), rt, dt)
+                    run_case("fidelity:apply_serialized(%s,deserializer)" % name, dict(d, f="apply_serialized", texts=name, deserializer="tagged"),
+                             lambda: jsonlogic_rs.apply_serialized(rt, dt, tagged), rt, dt, post=lambda text, v: ("D", text))
+                    run_case("fidelity:apply(serializer=%s)" % name, dict(d, f="apply", serializer=name), lambda: jsonlogic_rs.apply(rule, data, ser), rt, dt)
+                run_case("fidelity:apply", dict(d, f="apply"), lambda: jsonlogic_rs.apply(rule, data), json.dumps(rule), json.dumps(data))
+
+
 def c19_long_errors():
     """library errors that quote long non-ASCII content must still be ValueError"""
     units = ["é", "€", "水", "😀", "z"]
@@ -476,6 +518,7 @@ try:
         c19()
         c19_long_errors()
         c19_unencodable()
+        c19_text_fidelity()
     else:
         c01()
 finally:
